@@ -363,6 +363,9 @@ func Valid(data []byte) bool {
 	}
 	var v interface{}
 	decoder := NewDecoder(bytes.NewReader(data))
+	// validity is a matter of syntax: a number is not converted, so that one
+	// beyond the float64 range ( 1e400 ) is as valid as it is for encoding/json
+	decoder.UseNumber()
 	err := decoder.Decode(&v)
 	if err != nil {
 		return false
